@@ -287,7 +287,7 @@ def gen_map(rng, size: str = 'normal', strata: bool = True) -> Tuple[Any, Dict[s
 # Describer: every observable field of a map as a nested structure of typed leaves.
 #   ('s', str)   exact string         ('i', int/bool/None) exact
 #   ('c', float) coordinate: |a-b| <= 5e-7 + 1e-12*|a|      ('g', float) six significant digits
-#   ('a', float) angle component, circular 5e-7            ('x', float) exact float (written with repr)            ('id', kind, int) an ID (bijection per kind)
+#   ('a', float) angle component, circular 5e-7 (+3.6e-10 float slack)            ('x', float) exact float (written with repr)            ('id', kind, int) an ID (bijection per kind)
 def V(v) -> list:
     return [('c', v.x), ('c', v.y), ('c', v.z)]
 
@@ -401,7 +401,8 @@ def _leaf_equal(a, b, idmaps: Dict[str, Dict[int, int]]) -> bool:
         return d <= 5e-7 + 1e-12 * abs(a[1])
     if kind == 'a':  # angle component: circular distance
         d = abs(a[1] - b[1]) % 360.0
-        return min(d, 360.0 - d) <= 5e-7
+        # 5e-7 is exactly what six decimals can be off by; the subtraction of two doubles near 360 adds up to ~1e-13
+        return min(d, 360.0 - d) <= 5e-7 + 1e-12 * 360.0
     if kind == 'g':
         if a[1] == b[1]:
             return True
